@@ -157,6 +157,14 @@ Definition recovery_effects (ccrc : bool) (log disk : bytes) : list effect :=
   let (v, ops) := replay_ops ccrc 1 0 log in
   replay_effects (lenZ disk) ops ++ (match v with VOk => [EMsync; ELogTruncate; ELogFsync] | _ => [] end).
 
+(* the recovery step of iwkv_open in a process whose options are c.  Of the options of the RECOVERING process
+   _recover_wl / _last_fix_and_reset_points / _rollforward_exl read only check_crc_on_checkpoint: the size of its
+   log buffer (c_bufsz c = wal->bufsz) is not used anywhere on this path - the log may have been written by a
+   process with any other buffer size.  checks/C04.py and C05.py recover every log also with options that differ
+   from the writer's and compare with this function. *)
+Definition recover_open (c : pcfg) (log disk : bytes) : verdict * bytes * list aop :=
+  recover (c_ccrc c) 1 0 log disk.
+
 (* what the check compares per effect: kind, file, offset/size, length *)
 Definition effect_sig (e : effect) : Z * Z * Z * Z :=
   match e with
